@@ -180,6 +180,8 @@ class Result:
 
 def run(fn, init_auto, transfer, track=None, limit=60000, start=None, init_known=frozenset()):
     """forward exploration from the entry (or `start` block)"""
+    if init_auto is None:
+        raise ValueError('the automaton state None means "path ends"; use another initial state')
     res = Result()
     track = track or (lambda ref: True)
     entry = start or fn.entry
@@ -196,25 +198,29 @@ def run(fn, init_auto, transfer, track=None, limit=60000, start=None, init_known
             if ins.op == 'phi':
                 continue
             nxt = []
-            for s in cur:
-                # a re-executed definition invalidates knowledge about the previous instance
+            for s0 in cur:
+                # a re-executed definition invalidates knowledge about the previous instance; the rule's
+                # transfer still sees the state *before* that (it may ask about the previous instance)
                 r = ins.ref
+                s = s0
                 env, known = s.env, s.known
-                if any(v == r for _, v in env) or any(a == r or b == r for _, a, b in known):
-                    env = frozenset((k, v) for k, v in env if v != r)
+                if any(v == r or k == r for k, v in env) or any(a == r or b == r for _, a, b in known):
+                    env = frozenset((k, v) for k, v in env if v != r and k != r)
                     known = frozenset(t for t in known if t[1] != r and t[2] != r)
                     s = PathState(s.auto, env, known)
                 if ins.op == 'ret':
-                    out = transfer(ins, s.auto, s)
+                    out = transfer(ins, s0.auto, s0)
                     if out is None:
-                        out = s.auto
+                        out = s0.auto
                     for a in (_many(out)):
+                        if isinstance(a, With):
+                            a = a.auto
                         res.exits.append((ins, PathState(a, s.env, s.known)))
                     continue
                 if ins.op == 'unreachable':
                     res.aborts.append((block, s))
                     continue
-                out = transfer(ins, s.auto, s)
+                out = transfer(ins, s0.auto, s0)
                 if out is None:
                     continue
                 for a in _many(out):
